@@ -144,6 +144,6 @@ def run(prop, tier, seed):
     if packed:
         cov["packed_merge_model"] = packedmodel.coverage(packed)
         cov["states"] += packed["states"]
-        cov["rule"] += "; every pair of packed encodings of <= 2/3 spans over 5/6 units combined by the real merge (PackedMerge.tla)"
+        cov["rule"] += "; every pair of packed encodings of <= 2 spans (quick) or <= 3 spans (thorough) over 6 units combined by the real merge (PackedMerge.tla)"
     return v.finish("model_checking", cov, ["TLC + community modules", "the forest is projected through find/get_data",
                     "fresh RandomState keys per HashSet make repeated in-process runs explore different iteration orders"])
